@@ -645,7 +645,7 @@ static void reb_tree_check_for_overlapping_trajectories_in_cell(struct reb_simul
         double dy = gb.y - c->y;
         double dz = gb.z - c->z;
         double r2 = dx*dx + dy*dy + dz*dz;
-        double rp  = p1_r_plus_dtv + maxdrift + 0.86602540378443*c->w;
+        double rp  = p1_r_plus_dtv + r->max_radius1 + maxdrift + 0.86602540378443*c->w; // other particle's radius needs to be included, see tree search above
         // Check if we need to decent into daughter cells
         if (r2 < rp*rp ){
             for (int o=0;o<8;o++){
